@@ -119,6 +119,21 @@ KERNELS.append(dict(name="K_arr_is_contiguous", file="src/include/stir/Array.inl
                            (r"\(\*this\)\[([^\]]+)\]\.size_all\(\)", r"SUBARR_SIZE(self, \1)", 1),
                            (r"&\(\*\(\*this\)\[([^\]]+)\]\.begin_all\(\)\)", r"SUBARR_ADDR(self, \1)", 1)]))
 
+_ITER = [(r"typename base_type::iterator iter = this->begin\(\);|auto iter = this->begin\(\);", "int iter = 0;", 1),
+         (r"typename IndexRange<num_dimensions>::const_iterator range_iter = range\.begin\(\);|auto range_iter = range\.begin\(\);", "int range_iter = 0;", 1),
+         (r"iter != this->end\(\)", "iter != ARR_N(self)", 1),
+         (r"base_type::resize\(range\.get_min_index\(\), range\.get_max_index\(\)\);", "K_outer_resize(self, range->min_index, range->max_index);", 1)]
+KERNELS.append(dict(name="K_arrn_init", file="src/include/stir/Array.inl", cxx_name="Array<num_dimensions,elemT>::init (num_dimensions >= 2)",
+                    func=r"Array<num_dimensions, elemT>::init\(const IndexRange<num_dimensions>& range, elemT\* const data_ptr, bool copy_data\)",
+                    c_header="void K_arrn_init(struct ARRN* self, const struct RANGEN* range, const long data_ptr, _Bool copy_data)", loops=1,
+                    rules=_ITER + [(r"auto ptr = data_ptr;", "long ptr = data_ptr;", 1),
+                                   (r"\(\*iter\)\.init\(\*range_iter, ptr, copy_data\);", "K_SUB_INIT(self, iter, range_iter, ptr, copy_data);", 1),
+                                   (r"ptr \+= range_iter->size_all\(\);", "ptr += RANGE_SIZE(range, range_iter);", 1)]))
+KERNELS.append(dict(name="K_arrn_resize", file="src/include/stir/Array.inl", cxx_name="Array<num_dimensions,elemT>::resize (num_dimensions >= 2)",
+                    func=r"Array<num_dimensions, elemT>::resize\(const IndexRange<num_dimensions>& range\)",
+                    c_header="void K_arrn_resize(struct ARRN* self, const struct RANGEN* range)", loops=1,
+                    rules=_ITER + [(r"\(\*iter\)\.resize\(\*range_iter\);", "K_SUB_RESIZE(self, iter, range_iter);", 1)]))
+
 ERR = (r'\berror\("[^"]*"\);', "K_THROW(self);", 1)
 for nm, op in (("plus", r"\+="), ("minus", "-="), ("mult", r"\*="), ("div", "/=")):
     KERNELS.append(K("K_vwo_%s_assign" % nm, CLS + r"operator%s\(const VectorWithOffset& v\)" % op,
@@ -217,6 +232,11 @@ def jobs(tier, gen_dir):
             out.append(Job("c11/canary/K_arr_is_contiguous", os.path.join(VERIF, "harness", "c11b.c"), "h_K_arr_is_contiguous", enforce="K_arr_is_contiguous",
                            loop_contracts=True, defines={"CANARY_K_arr_is_contiguous": None}, flags=[], timeout=300, kind="canary",
                            expect_fail=r"K_arr_is_contiguous\.postcondition", kernels=["K_arr_is_contiguous"], no_base_flags=True))
+            for kk in ("K_arrn_init", "K_arrn_resize"):
+                out.append(Job("c11/" + kk, os.path.join(VERIF, "harness", "c11b.c"), "h_" + kk, enforce=kk, loop_contracts=True, flags=CHECKS, timeout=300, kernels=[kk],
+                               min_obligations=3, no_base_flags=True, backend="kissat", params={"sub-arrays": "symbolic number <= 8"}))
+                out.append(Job("c11/canary/" + kk, os.path.join(VERIF, "harness", "c11b.c"), "h_" + kk, enforce=kk, loop_contracts=True, defines={"CANARY_" + kk: None}, flags=[],
+                               timeout=300, kind="canary", expect_fail=kk + r"\.postcondition", kernels=[kk], no_base_flags=True))
         # vacuity canaries: contract + `ensures(false)` must fail
         for kern in ("K_vwo_plus_assign", "K_vwo_at", "K_vwo_set_offset"):
             if t != types[0]:
@@ -237,7 +257,7 @@ TRUSTED = [
 ASSUMPTIONS = [
     "buffer of a vector is its own allocation object of exactly capacity*sizeof(T) bytes (memory-viewing vectors: the viewed block is modelled as exactly that object)",
 ]
-UNDECIDED_CLAUSES = ["Array<n>, n>=2; FullArrayIterator row-major order; shared-memory views aliasing; move construction/assignment"]
+UNDECIDED_CLAUSES = ["Array<n>, n>=2 beyond is_contiguous / init / resize (sub-arrays abstracted to what these functions read and write of them); FullArrayIterator row-major order; shared-memory views aliasing; move construction/assignment"]
 
 
 def param_summary(tier):
@@ -250,7 +270,7 @@ import subprocess
 
 REPLAY_OPS = {"K_vwo_plus_assign": "plus", "K_vwo_minus_assign": "minus", "K_vwo_mult_assign": "mult", "K_vwo_div_assign": "div",
               "K_vwo_at": "at", "K_vwo_set_offset": "set_offset", "K_vwo_fill": "fill", "K_vwo_equals": "equals",
-              "K_vwo_assign": "assign", "K_vwo_resize": "resize", "K_vwo_grow": "grow", "K_arr1_resize": "array_resize", "K_arr_is_contiguous": "contig"}
+              "K_vwo_assign": "assign", "K_vwo_resize": "resize", "K_vwo_grow": "grow", "K_arr1_resize": "array_resize", "K_arr_is_contiguous": "contig", "K_arrn_init": "arrn", "K_arrn_resize": "arrn"}
 
 
 def _num(v, default=0):
